@@ -389,6 +389,24 @@ def run(chk, prog):
                 while p is not None and p["k"] in A.TRANSPARENT | {"CXXConstructExpr"}:
                     p = idx[1].get(p["id"])
                 ok = p is not None and p.get("callee") == "vfps::HDF5File::appendRFKicks"
+                if not ok:
+                    # held in a const local that is handed to appendRFKicks and used for nothing else
+                    q_ = p
+                    while q_ is not None and q_.get("k") not in ("DeclStmt", "CompoundStmt"):
+                        q_ = idx[1].get(q_["id"])
+                    if q_ is not None and q_.get("k") == "DeclStmt":
+                        dv = [d_ for d_ in q_.get("decls", []) if isinstance(d_.get("init"), dict) and any(y is x or y.get("id") == x["id"] for y in A.walk(d_["init"]))]
+                        if len(dv) == 1 and dv[0].get("is_const"):
+                            uses_ = [y for y in A.walk(f["body"]) if y.get("k") == "DeclRefExpr" and y.get("decl") == dv[0]["decl"]]
+                            cons_ = []
+                            for u_ in uses_:
+                                pu = idx[1].get(u_["id"])
+                                while pu is not None and pu["k"] in A.TRANSPARENT | {"CXXConstructExpr"}:
+                                    pu = idx[1].get(pu["id"])
+                                cons_.append(pu.get("callee") if pu is not None else None)
+                            if cons_ and all(c_ == "vfps::HDF5File::appendRFKicks" for c_ in cons_):
+                                ok = True
+                                p = {"callee": "vfps::HDF5File::appendRFKicks"}
                 chk.check(ok, "R3", A.loc(f, x), "the drained modulation is handed to HDF5File::appendRFKicks (consumer: %s)" % (p.get("callee") if p else None),
                           "%s:getPastModulation-consumer:%s" % (f["name"], p.get("callee") if p else None))
                 sites += 1
